@@ -21,6 +21,7 @@
 package engine
 
 import (
+	"fmt"
 	"go/token"
 	"reflect"
 
@@ -69,7 +70,9 @@ func (r PtrReplacer) Replace(d data.Data, cl Changelog, pos token.Pos) (reflect.
 	}
 
 	v := reflect.New(r.Type).Elem()
-	v.Set(x.Addr())
+	if err := setValue(v, x.Addr()); err != nil {
+		return reflect.Value{}, err
+	}
 	return v, nil
 }
 
@@ -107,7 +110,9 @@ func (r SliceReplacer) Replace(d data.Data, cl Changelog, pos token.Pos) (reflec
 		if err != nil {
 			return reflect.Value{}, err
 		}
-		v.Index(i).Set(item)
+		if err := setValue(v.Index(i), item); err != nil {
+			return reflect.Value{}, err
+		}
 	}
 
 	return v, nil
@@ -143,7 +148,9 @@ func (r StructReplacer) Replace(d data.Data, cl Changelog, pos token.Pos) (refle
 		if err != nil {
 			return reflect.Value{}, err
 		}
-		v.Field(i).Set(fv)
+		if err := setValue(v.Field(i), fv); err != nil {
+			return reflect.Value{}, err
+		}
 	}
 	return v, nil
 }
@@ -173,7 +180,9 @@ func (r InterfaceReplacer) Replace(d data.Data, cl Changelog, pos token.Pos) (re
 	}
 
 	v := reflect.New(r.Type).Elem()
-	v.Set(x)
+	if err := setValue(v, x); err != nil {
+		return reflect.Value{}, err
+	}
 	return v, nil
 }
 
@@ -183,4 +192,16 @@ type ValueReplacer struct{ Value reflect.Value }
 // Replace replaces a value as-is.
 func (r ValueReplacer) Replace(data.Data, Changelog, token.Pos) (reflect.Value, error) {
 	return r.Value, nil
+}
+
+// setValue assigns src to dst. It reports an error instead of panicking if
+// src cannot be stored in dst. This happens when a metavariable is used in a
+// position that cannot hold what it matched: for example, an expression
+// metavariable where only an identifier is allowed.
+func setValue(dst, src reflect.Value) error {
+	if !src.Type().AssignableTo(dst.Type()) {
+		return fmt.Errorf("cannot use %v where %v is expected", src.Type(), dst.Type())
+	}
+	dst.Set(src)
+	return nil
 }
